@@ -129,6 +129,13 @@ class C25(Check):
                 return ret
             ec.roundtrip = rec_rt
             n = len(case["pre"])
+            if case["seed"] % 4 == 0 and not case.get("damage"):
+                # a request too long for any frame was made (and refused) on this connection just before: nothing of it may linger
+                try:
+                    await real_rt(ethercat.ECCmd.FPRD, tuple(case["range"])[0], 0x1000, data=2000)
+                    events.append(("oversized request accepted",))
+                except OverflowError:
+                    pass
             try:
                 if case["mode"] == "gather":
                     tasks = [asyncio.ensure_future(ec.assigned_address(-i)) for i in range(n)]
@@ -247,7 +254,7 @@ class C25(Check):
 
     def rule(self):
         return ("buses of 1-8 terminals (and some of 16-34: more concurrent probes than the 15 datagrams of a frame), each unaddressed or pre-assigned (inside or outside the range), address range only 0-3 larger than the terminal count so that "
-                "draws collide, concurrent assigned_address tasks (or scan_serial_numbers, also after addresses were reserved ahead and after a second connect() of the same master object), scripted randint and random response delays; 30% of the concurrent cases with one response frame cut short (requests in it may fail, addresses handed out are still checked); non-trivial = at least two unaddressed terminals")
+                "draws collide, concurrent assigned_address tasks (or scan_serial_numbers, also after addresses were reserved ahead and after a second connect() of the same master object), scripted randint and random response delays; a quarter of the cases after a refused over-long request on the same connection; 30% of the concurrent cases with one response frame cut short (requests in it may fail, addresses handed out are still checked); non-trivial = at least two unaddressed terminals")
 
     def distribution(self, cases, observed):
         d = {"draws": 0, "collisions": 0, "probes_answered": 0, "scan_mode": 0}
